@@ -39,6 +39,7 @@ Num == {SI, BI}
 PrimType(fam, ts) ==
   CASE fam \in {"add", "sub", "mul", "quo", "rem", "mod"} ->
          IF Len(ts) = 2 /\ ts[1] \in Num /\ ts[2] = ts[1] THEN ts[1] ELSE ERR
+    [] fam \in {"and", "or", "xor"} -> IF Len(ts) = 2 /\ ts[1] = SI /\ ts[2] = SI THEN SI ELSE ERR     \* /\ \/ xor on SingleInteger
     [] fam = "neg" -> IF Len(ts) = 1 /\ ts[1] \in Num THEN ts[1] ELSE ERR
     [] fam \in {"lt", "le", "gt", "ge"} ->
          IF Len(ts) = 2 /\ ts[1] \in Num \cup {BOOL} /\ ts[2] = ts[1] THEN BOOL ELSE ERR
